@@ -7,7 +7,8 @@ def handleC09 : List String → String
     let src := "S"
     let fmtd := "T"
     let fmt : String → Option String := fun s =>
-      match kind with
+      -- `unformatted:no-final-newline` etc.: the label after the colon only says how the text differs
+      match (kind.splitOn ":").headD "" with
       | "formatted" => some s
       | "unformatted" => if s == src then some fmtd else some s
       | _ => none
